@@ -48,7 +48,9 @@ K == [k1 |-> Base,
       k15 |-> [Base EXCEPT !.l2 = "hosta"],
       k16 |-> [Base EXCEPT !.servers = <<[SrvA EXCEPT !.minlen = "100"], SrvB>>, !.caches = {"c1", "c2"}],   \* k7 with another threshold
       k17 |-> [Base EXCEPT !.servers = <<SrvA, SrvB>>, !.caches = {"c1", "c2"}, !.stores = "shared"],       \* k7, both caches on one store
-      k18 |-> [Base EXCEPT !.stores = "shared"]]                                                            \* k1 with a store
+      k18 |-> [Base EXCEPT !.stores = "shared"],
+      k19 |-> [Base EXCEPT !.ub = "B,A first"],     \* policy `first`: the order of the servers is what decides
+      k20 |-> [Base EXCEPT !.ub = "A,B first"]]                                                            \* k1 with a store
 
 Names == DOMAIN K
 Distinct2 == {p \in Names \X Names : p[1] # p[2]}
